@@ -13,6 +13,8 @@ ENC_KEYS = ['cv25519-0', 'ecdh-p256-0', 'ecdh-p384-0', 'ecdh-p521-0', 'ecdh-k256
             'cv25519-seclead0', 'ecdh-p521-ylead0', 'rsa1024-1', 'rsa3072-5',
             # RSA moduli whose length is not a multiple of 8 bits: the ciphertext integer is often one octet shorter than the modulus
             'rsa2041-0', 'rsa1031-0',
+            # an RSA key published as encrypt-only (algorithm id 2)
+            'rsa1024-1#2',
             # the same ECDH keys carrying KDF parameters other than PGPy's per-curve defaults (as GnuPG-made keys do)
             'ecdh-p384-0@9,9', 'ecdh-p256-0@10,9', 'cv25519-1@8,9', 'ecdh-p521-0@10,7', 'ecdh-k256-0@8,8', 'cv25519-0@10,8']
 FAST_ENC_KEYS = [k for k in ENC_KEYS if not k.startswith('rsa2048') and not k.startswith('rsa3072')]      # (rsa2041 stays: it is the point of having it)
